@@ -9,7 +9,7 @@
 (***************************************************************************)
 EXTENDS Machine, Json, TLCExt, SequencesExt
 
-CONSTANTS Types, Mode,    \* Mode \in {"bin", "cmp", "un", "cast"}
+CONSTANTS Types, Mode,    \* Mode \in {"bin", "cmp", "un", "cast", "tree", "chain"}
           Thorough        \* FALSE: fewer operands for the expensive wide cells
 
 Unsigned == IntTypes \ SignedTypes
@@ -39,33 +39,42 @@ BinOps(t) == {"+", "-", "*", "/", "%"} \cup (IF t \in BitTypes THEN {"&", "|", "
 CmpOps == {"==", "!=", "<", ">", "<=", ">="}
 UnOps(t) == IF t \in SignedTypes THEN {"-"} ELSE IF t \in BitTypes THEN {"!"} ELSE {}
 
-VARIABLES t, op, a, b, lvl, res, op2, c      \* res: the cell's value, computed once by the action that completes the cell
-vars == <<t, op, a, b, lvl, res, op2, c>>
-Init == t = "" /\ op = "" /\ a = <<>> /\ b = <<>> /\ lvl = 0 /\ res = UB /\ op2 = "" /\ c = <<>>
+VARIABLES t, op, a, b, lvl, res, op2, c,     \* res: the cell's value, computed once by the action that completes the cell
+          t3                                 \* chain mode: ((a as op) as op2) as t3
+vars == <<t, op, a, b, lvl, res, op2, c, t3>>
+Init == t = "" /\ op = "" /\ a = <<>> /\ b = <<>> /\ lvl = 0 /\ res = UB /\ op2 = "" /\ c = <<>> /\ t3 = ""
 Ops(ty) == CASE Mode \in {"bin", "tree"} -> BinOps(ty) [] Mode = "cmp" -> CmpOps [] Mode = "un" -> UnOps(ty)
-             [] Mode = "cast" -> (IntTypes \cap Types) \ {ty}
-PickT == lvl = 0 /\ t' \in Types /\ lvl' = 1 /\ UNCHANGED <<op, a, b, res, op2, c>>
-PickOp == lvl = 1 /\ op' \in Ops(t) /\ lvl' = 2 /\ UNCHANGED <<t, a, b, res, op2, c>>
+             [] Mode \in {"cast", "chain"} -> (IntTypes \cap Types) \ {ty}
+PickT == lvl = 0 /\ t' \in Types /\ lvl' = 1 /\ UNCHANGED <<op, a, b, res, op2, c, t3>>
+PickOp == lvl = 1 /\ op' \in Ops(t) /\ lvl' = 2 /\ UNCHANGED <<t, a, b, res, op2, c, t3>>
 Cell(x, y) == CASE Mode = "bin" -> BinOp(op, Val(t, x), Val(t, y))
                 [] Mode = "cmp" -> Compare(op, Val(t, x), Val(t, y))
                 [] Mode = "un" -> UnOp(op, Val(t, x))
                 [] Mode = "cast" -> CastTo(op, Val(t, x))
-PickA == /\ lvl = 2 /\ a' \in Operands(t, op) /\ UNCHANGED <<t, op, b, op2, c>>
+PickA == /\ lvl = 2 /\ Mode # "chain" /\ a' \in Operands(t, op) /\ UNCHANGED <<t, op, b, op2, c, t3>>
          /\ IF Mode \in {"un", "cast"} THEN lvl' = 4 /\ res' = Cell(a', <<>>) ELSE lvl' = 3 /\ res' = res
-PickB == /\ lvl = 3 /\ b' \in Operands(t, op) /\ UNCHANGED <<t, op, a>>
+PickB == /\ lvl = 3 /\ b' \in Operands(t, op) /\ UNCHANGED <<t, op, a, t3>>
          /\ IF Mode = "tree" THEN lvl' = 5 /\ res' = res /\ UNCHANGED <<op2, c>>
             ELSE lvl' = 4 /\ res' = Cell(a, b') /\ UNCHANGED <<op2, c>>
 \* tree mode: (a op b) op2 c
 PickC == /\ lvl = 5 /\ op2' \in BinOps(t) /\ c' \in TreeOperands(Width(t)) /\ lvl' = 4
          /\ res' = BinOp(op2', BinOp(op, Val(t, a), Val(t, b)), Val(t, c'))
-         /\ UNCHANGED <<t, op, a, b>>
-Next == PickT \/ PickOp \/ PickA \/ PickB \/ PickC
+         /\ UNCHANGED <<t, op, a, b, t3>>
+\* chain mode: casts chained three deep, ((a as op) as op2) as t3: every step truncates, sign-extends or zero-extends by
+\* the signedness of ITS source type (an i8 -1 widened to u16 is 65535 and stays 65535 when widened again to i128)
+ChainOperands(w) == { FromNat(1, w), Ones(w), MinSigned(w), MaxSigned(w), Pattern(w, 165) }
+PickChain == /\ lvl = 2 /\ Mode = "chain"
+             /\ op2' \in (IntTypes \cap Types) \ {op} /\ t3' \in (IntTypes \cap Types) /\ t3' # op2'
+             /\ a' \in ChainOperands(Width(t)) /\ lvl' = 4
+             /\ res' = CastTo(t3', CastTo(op2', CastTo(op, Val(t, a'))))
+             /\ UNCHANGED <<t, op, b, c>>
+Next == PickT \/ PickOp \/ PickA \/ PickB \/ PickC \/ PickChain
 Spec == Init /\ [][Next]_vars
 
 Result == res
 \* sanity of the semantics itself: results stay inside their type
 WellTyped == lvl = 4 => (IsUB(Result) \/ (Len(Result.v) = Limbs(Width(Result.t)) /\ \A i \in 1..Len(Result.v) : Result.v[i] \in 0..255))
 EmitCase == lvl = 4 =>
-    PrintT(<<"CASE", ToJson([mode |-> Mode, t |-> t, op |-> op, a |-> a, b |-> b, op2 |-> op2, c |-> c,
+    PrintT(<<"CASE", ToJson([mode |-> Mode, t |-> t, op |-> op, a |-> a, b |-> b, op2 |-> op2, c |-> c, t3 |-> t3,
                              ub |-> IsUB(Result), rt |-> Result.t, r |-> Result.v])>>)
 =============================================================================
